@@ -93,15 +93,37 @@ func panicException(p *core.Prog, f *ssa.Function, pn *ssa.Panic) (string, bool)
 	// only callers are container-finish events: reachable only by an
 	// unbalanced On…Finished, i.e. a stream that is not well-formed.
 	if f.Signature.Recv() != nil && len(f.Params) == 1 {
-		callers := staticCallers(p, f)
+		// the finish events may reach the pop through unexported helpers that have no other callers
+		var callers []*ssa.Function
+		all := true
+		seen := map[*ssa.Function]bool{}
+		var up func(g *ssa.Function, depth int)
+		up = func(g *ssa.Function, depth int) {
+			cs := staticCallers(p, g)
+			if len(cs) == 0 || depth > 3 {
+				all = false
+				return
+			}
+			for _, c := range cs {
+				if seen[c] {
+					continue
+				}
+				seen[c] = true
+				if n := c.Name(); n == "OnObjectFinished" || n == "OnArrayFinished" {
+					callers = append(callers, c)
+				} else if c.Object() != nil && !c.Object().Exported() && c.Signature.Recv() != nil && !usedAsValue(p, c) {
+					up(c, depth+1)
+				} else {
+					callers = append(callers, c)
+					all = false
+				}
+			}
+		}
+		up(f, 0)
 		if len(callers) > 0 {
-			all := true
 			var names []string
 			for _, c := range callers {
 				names = append(names, core.FuncKey(c))
-				if n := c.Name(); n != "OnObjectFinished" && n != "OnArrayFinished" {
-					all = false
-				}
 			}
 			sort.Strings(names)
 			if all && guardedByLenZero(pn) {
@@ -117,6 +139,35 @@ func panicException(p *core.Prog, f *ssa.Function, pn *ssa.Panic) (string, bool)
 		return why, false
 	}
 	return "no accepted premise applies", false
+}
+
+// usedAsValue: the function is referenced other than as the callee of a
+// static call (method value, closure, stored in a table).
+func usedAsValue(p *core.Prog, f *ssa.Function) bool {
+	for _, g := range p.ModFuncs() {
+		for _, b := range g.Blocks {
+			for _, in := range b.Instrs {
+				for _, op := range in.Operands(nil) {
+					if *op != ssa.Value(f) {
+						continue
+					}
+					if c, ok := in.(ssa.CallInstruction); ok && c.Common().Value == ssa.Value(f) {
+						isArg := false
+						for _, a := range c.Common().Args {
+							if a == ssa.Value(f) {
+								isArg = true
+							}
+						}
+						if !isArg {
+							continue
+						}
+					}
+					return true
+				}
+			}
+		}
+	}
+	return false
 }
 
 func staticCallers(p *core.Prog, f *ssa.Function) []*ssa.Function {
